@@ -134,16 +134,11 @@ def percent_rule(ctx):
     repo = ctx.repo
     for modn, qual in ((SB, 'Value.quote_str'), (SB, 'SQLBuilder.MOD'), (SB, 'SQLBuilder.RAWSQL'), ('pony.orm.core', 'adapt_sql')):
         f = repo.fn(modn, qual)
-        tests = [s for s in ast.walk(f.node) if isinstance(s, (ast.If, ast.IfExp)) and 'paramstyle in' in norm(s.test)]
-        ok = False; detail = 'no `paramstyle in (...)` test'
-        for t in tests:
-            c = t.test
-            if isinstance(c, ast.Compare) and isinstance(c.comparators[0], (ast.Tuple, ast.List)):
-                sts = {e.value for e in c.comparators[0].elts if isinstance(e, ast.Constant)}
-                body_txt = norm(t.body) if isinstance(t, ast.IfExp) else ' '.join(norm(x) for x in t.body)
-                doubles = "'%%'" in body_txt or "' %% '" in body_txt
-                ok = sts == {'format', 'pyformat'} and doubles
-                detail = '' if ok else 'doubles %% for %s (must be exactly format and pyformat); doubling present: %s' % (sorted(sts), doubles)
+        # scenario evaluation: the statement that doubles % is reached for exactly the styles whose driver evaluates `sql % args`
+        per, _m, _h, _u = style_scenarios(ctx.cg, f)
+        doubling = {st for st in STYLES if any("'%%'" in x or "' %% '" in x for x in per[st])}
+        ok = doubling == {'format', 'pyformat'}
+        detail = '' if ok else 'doubles %% for %s (must be exactly format and pyformat)' % (sorted(doubling) or 'no style')
         ctx.ob('C06-PERCENT.text-site-doubles-percent-for-format-styles', f, f.node, ok,
                '' if ok else '%s puts text into the statement but: %s -- a format-style driver evaluates `sql %% args`, so a literal %% must be doubled there and only there' % (qual, detail))
 
